@@ -38,7 +38,7 @@ RULE = (
     "policy, #flips class, n class)"
 )
 ASSUMPTIONS = ["ordinary (non false-positive-labelled) ground truth only", "thresholds compared per label with the same chain for all labels"]
-DECIDING = ["C08.chains_2d", "C08.duplicate_annotation_chains", "C08.chains", "C08.chains_with_flip", "C08.result_implications_checked", "C08.count_pairs_checked", "C08.ap_pairs_checked", "C08.map_pairs_checked", "C08.manager_chains"]
+DECIDING = ["C08.chains_2d", "C08.duplicate_annotation_chains", "C08.chains", "C08.chains_with_flip", "C08.result_implications_checked", "C08.count_pairs_checked", "C08.ap_pairs_checked", "C08.map_pairs_checked", "C08.manager_chains", "C08.passfail_sweeps"]
 JOBS = {"quick": 4, "thorough": 14}
 
 LABELS = [AutowareLabel(v) for v in O.ORDINARY]
@@ -241,6 +241,43 @@ def run(ctx: Ctx) -> None:
                     flips = chain_on_results(ctx, results, gts, mode, chain, info)
                     ctx.count("C08.chains_2d")
                     ctx.case(("results_2d", str(mode), bool(scores), min(flips, 3)), nontrivial=len(results) > 0)
+        # ---- a frame's pass/fail result re-judged along a chain of thresholds (a threshold sweep on one evaluated frame:
+        # the frame's own PassFailResult is given one looser PerceptionPassFailConfig after another and evaluated again on
+        # the frame's fixed results; every other chain walks loose -> tight)
+        from perception_eval.evaluation.result.perception_frame_config import PerceptionPassFailConfig
+
+        from ..frames import run_direct_frames
+
+        def sweep(c, fr, config):
+            if c["task"] == "fp_validation" or any(O.is_fp_label(g) for g in fr.frame_ground_truth.objects):
+                return
+            pfr = fr.pass_fail_result
+            labels = [str(l.value) for l in pfr.frame_pass_fail_config.target_labels]
+            results, gts = list(fr.object_results), list(fr.frame_ground_truth.objects)
+            scores = sorted(res.plane_distance.value for res in results if res.ground_truth_object is not None and res.plane_distance is not None and res.plane_distance.value is not None)
+            cuts = sorted({round(v + 0.01, 4) for v in scores[:6]} | {0.05, 1.0, 50.0})
+            order = list(range(len(cuts)))
+            if (len(results) + len(gts)) % 2 == 1:
+                order.reverse()
+            seen: Dict[int, Tuple[int, int, int, int]] = {}
+            for k in order:
+                pfr.frame_pass_fail_config = PerceptionPassFailConfig(evaluator_config=config, target_labels=labels, matching_threshold_list=[cuts[k]] * len(labels))
+                pfr.evaluate(results, gts)
+                seen[k] = (len(pfr.tp_object_results), len(pfr.fn_objects), len(pfr.fp_object_results), len(pfr.tn_objects))
+            ctx.count("C08.passfail_sweeps")
+            info = dict(level="frame_pass_fail", thresholds=cuts, order=order, counts=[seen[k] for k in range(len(cuts))], n_results=len(results), n_gt=len(gts))
+            for k in range(1, len(cuts)):
+                ctx.count("C08.passfail_pairs_checked")
+                if seen[k][0] < seen[k - 1][0]:
+                    ctx.violation("C08/frame_tp_count_decreases_when_threshold_loosened", info, tap="comparator")
+                    break
+                if seen[k][1] > seen[k - 1][1]:
+                    ctx.violation("C08/frame_fn_count_increases_when_threshold_loosened", info, tap="comparator")
+                    break
+            ctx.case(("passfail_sweep", seen[len(cuts) - 1][0] > seen[0][0], seen[len(cuts) - 1][1] < seen[0][1]), nontrivial=seen[len(cuts) - 1] != seen[0])
+
+        run_direct_frames(ctx, "passfail_sweep", 120 if ctx.quick else 12000, after=sweep)
+
         # ---- through the manager: several thresholds at once, frame and scene level ----
         for idx in ctx.indices("manager", 60 if ctx.quick else 8000):
             r = ctx.rng("manager", idx)
